@@ -71,3 +71,10 @@ package actionlint
 // (references to unknown step ids are not reported any more) - exactly when the id contains a ${{ }}
 //@ func (*RuleExpression).VisitStep
 //@   body_calls [C05] (*ObjectType).Loose iff n.ID != nil && hasexpr(n.ID.Value)
+
+// C05: "needs" gives access to the jobs a job depends on directly, not to the jobs those depend on: the table of
+// needed jobs is filled from the job's own `needs:` list without recursion, and only that table (and the fresh
+// outputs objects put into it) is written
+//@ func (*RuleExpression).populateDependantNeedsTypes
+//@   forbid_call [C05] (*RuleExpression).populateDependantNeedsTypes
+//@   at_store [C05 C09] ObjectType.Props: owner == out || fresh(owner)
